@@ -40,7 +40,7 @@ def floors(tier):
 
 def gen_cases(tier, seed):
     universe = slabs.c04_cells()
-    sc = seed % 8
+    sc = seed % 4
     if tier == "thorough":
         chosen = universe
     else:
